@@ -111,7 +111,7 @@ func r052(c *Ctx, r *R) {
 	}
 	r.Check(strip(sel.States[0].Send) == opv, "sends-op", sel.Pos(), "the tracked operation is what is sent to the worker", "the value sent to the worker is not the tracked operation")
 	// channel choice
-	for _, lf := range valueLeaves(sel.States[0].Chan, sel.Block()) {
+	for _, lf := range valueLeavesDeep(sel.States[0].Chan, sel.Block()) {
 		l := lf.Val
 		fld, _ := fieldLoad(l)
 		if fld == nil {
@@ -198,24 +198,41 @@ func r052(c *Ctx, r *R) {
 }
 
 func r053(c *Ctx, r *R) {
-	f := c.fn(r, "pintracker/stateless", "applyPinF")
-	if f == nil {
+	// The worker's per-operation logic lives in opWorker, possibly with a
+	// piece of it in a helper (applyPinF on the pinned tree). It is found
+	// by what it does - it calls the pin function it was given on the
+	// operation it received - not by the helper's name.
+	w := c.fn(r, "pintracker/stateless", "Tracker.opWorker")
+	if w == nil {
 		return
 	}
+	isPinF := func(g *ssa.Function, v ssa.Value) bool {
+		// a function-typed parameter of the worker (directly, or the
+		// helper parameter that stands for it)
+		if _, ok := v.Type().Underlying().(*types.Signature); !ok {
+			return false
+		}
+		return paramIndex(w, v) >= 0 || paramIndex(g, v) >= 0
+	}
+	var f *ssa.Function
+	var pinCall *ssa.Call
+	for _, dc := range findCallsDeepAny(w, func(g *ssa.Function, ci ssa.CallInstruction) bool {
+		cl, ok := ci.(*ssa.Call)
+		return ok && !cl.Common().IsInvoke() && cl.Common().StaticCallee() == nil && isPinF(g, cl.Common().Value)
+	}) {
+		pinCall, _ = dc.Inner.(*ssa.Call)
+		f = dc.Inner.Parent()
+	}
+	if pinCall == nil || f == nil {
+		r.Und("pinF-call", w.Pos(), "the worker's call of the pin function it was given was not found")
+		return
+	}
+	helper := f != w
 	phIn := c.constIn("pintracker/optracker", "PhaseInProgress")
 	phDone := c.constIn("pintracker/optracker", "PhaseDone")
-	var pinCall *ssa.Call
-	instrs(f, func(i ssa.Instruction) {
-		if cl, ok := i.(*ssa.Call); ok && paramIndex(f, cl.Common().Value) == 0 && !cl.Common().IsInvoke() {
-			pinCall = cl
-		}
-	})
-	if pinCall == nil {
-		r.Und("pinF-call", f.Pos(), "call of the pin function not found")
-		return
-	}
+	theOp := strip(pinCall.Common().Args[0])
 	onOp := func(ci ssa.CallInstruction) bool {
-		return len(ci.Common().Args) > 0 && paramIndex(f, ci.Common().Args[0]) == 1
+		return len(ci.Common().Args) > 0 && strip(ci.Common().Args[0]) == theOp
 	}
 	var inProg, done ssa.CallInstruction
 	for _, ci := range findCalls(f, false, "optracker.Operation).SetPhase") {
@@ -244,7 +261,7 @@ func r053(c *Ctx, r *R) {
 	}
 	se := findCalls(f, false, "optracker.Operation).SetError")
 	if len(se) != 1 || !onOp(se[0]) {
-		r.Bad("set-error", f.Pos(), "applyPinF has %d SetError calls on the operation (expected 1): a failed IPFS call would not be recorded", len(se))
+		r.Bad("set-error", f.Pos(), "the worker has %d SetError calls on the operation (expected 1): a failed IPFS call would not be recorded", len(se))
 	} else {
 		okArg := false
 		if cl, _ := originCall(se[0].Common().Args[1]); cl == pinCall {
@@ -267,37 +284,45 @@ func r053(c *Ctx, r *R) {
 		r.Check(okCancel, "error-then-cancel", se[0].Pos(), "the failed operation is cancelled after recording the error", "the failed operation is not cancelled after SetError")
 	}
 	if done == nil {
-		r.Bad("done", f.Pos(), "applyPinF never sets PhaseDone")
+		r.Bad("done", f.Pos(), "the worker never sets PhaseDone")
 	} else {
 		r.Check(errNonNil(done.Block(), false), "done-on-success", done.Pos(), "PhaseDone is set only when the IPFS call succeeded", "PhaseDone is set on a path where the IPFS call may have failed")
 	}
-	// result false (= caller cleans) only on success
-	okRet := true
-	nFalse := 0
-	for _, lf := range returnLeaves(f, 0) {
-		k, isK := constOf(lf.Val)
-		if !isK {
-			okRet = false
-			continue
-		}
-		if k == nil || !constant.BoolVal(k) {
-			nFalse++
-			if done == nil || !done.Block().Dominates(lf.Block) {
+	// the operation is cleaned from the table exactly when it completed
+	cl := findCalls(w, false, "optracker.OperationTracker).Clean")
+	if len(cl) != 1 {
+		r.Bad("worker-clean", w.Pos(), "opWorker has %d Clean calls (expected 1): finished operations would stay in the table", len(cl))
+		return
+	}
+	if helper {
+		// the helper answers "keep" (true) or "clean" (false): false only
+		// after PhaseDone, and the worker cleans exactly on false
+		okRet := true
+		nFalse := 0
+		for _, lf := range returnLeaves(f, 0) {
+			k, isK := constOf(lf.Val)
+			if !isK {
 				okRet = false
+				continue
+			}
+			if k == nil || !constant.BoolVal(k) {
+				nFalse++
+				if done == nil || !done.Block().Dominates(lf.Block) {
+					okRet = false
+				}
 			}
 		}
-	}
-	r.Check(okRet && nFalse == 1, "clean-only-when-done", f.Pos(), "applyPinF tells the worker to clean the operation only after PhaseDone", "applyPinF can tell the worker to clean an operation that did not complete (its error status would vanish)")
-	// opWorker: Clean iff !cont
-	w := c.fn(r, "pintracker/stateless", "Tracker.opWorker")
-	if w != nil {
-		cl := findCalls(w, false, "optracker.OperationTracker).Clean")
-		if len(cl) != 1 {
-			r.Bad("worker-clean", w.Pos(), "opWorker has %d Clean calls (expected 1): finished operations would stay in the table", len(cl))
-		} else {
-			ok := guardedBy(cl[0].Block(), func(g Guard) bool { return gCall(g, false, "stateless.applyPinF") })
-			r.Check(ok, "worker-clean", cl[0].Pos(), "the worker cleans an operation exactly when applyPinF reports completion", "opWorker cleans operations that applyPinF asked to keep (failed/cancelled): error statuses are lost")
-		}
+		r.Check(okRet && nFalse == 1, "clean-only-when-done", f.Pos(), "the helper tells the worker to clean the operation only after PhaseDone", "the helper can tell the worker to clean an operation that did not complete (its error status would vanish)")
+		hname := f.Name()
+		ok := guardedBy(cl[0].Block(), func(g Guard) bool {
+			call, _ := originCallLocal(g.Cond)
+			return call != nil && !g.Branch && call.Common().StaticCallee() == f
+		})
+		r.Check(ok, "worker-clean", cl[0].Pos(), "the worker cleans an operation exactly when "+hname+" reports completion", "opWorker cleans operations that "+hname+" asked to keep (failed/cancelled): error statuses are lost")
+	} else {
+		ok := done != nil && (done.Block() == cl[0].Block() && dominatesInstr(done, cl[0]) || done.Block().Dominates(cl[0].Block()) && done.Block() != cl[0].Block())
+		r.Check(ok, "clean-only-when-done", cl[0].Pos(), "the operation is cleaned only after PhaseDone", "the worker can clean an operation that did not complete (its error status would vanish)")
+		r.Check(ok && errNonNil(cl[0].Block(), false), "worker-clean", cl[0].Pos(), "the worker cleans an operation exactly when the IPFS call succeeded", "opWorker cleans operations whose IPFS call failed or was cancelled: error statuses are lost")
 	}
 }
 
